@@ -2,7 +2,7 @@
 // available to Verus); the From impls are what `?` uses.
 verus! {
 pub struct IoError { pub code: i32 }
-pub struct TryFromIntError { pub u: () }
+pub use core::num::TryFromIntError;
 pub enum MemoryWriterError {
     IOError(IoError),
     TryFromIntError(TryFromIntError),
